@@ -20,7 +20,7 @@ TECHNIQUE = (
 RULE = (
     "case = 1-3 FASTA files with 1-40 (or 450-1300 small) records '>name description' (every third description holds a '>' itself), sequences of 0-200 residues "
     "wrapped at a drawn width, with/without final newline, enzyme in {[KR], K, [FWY], [KR](?!P)}, reverse or shuffle, "
-    "concatenate on/off, numpy global seed, optionally repeated accessions or input entries that already carry the decoy prefix; every case is preceded by a call with the opposite mode (history), half of them writing to the very output path. "
+    "concatenate on/off, numpy global seed, optionally repeated accessions or input entries that already carry the decoy prefix; every case is preceded by a call with the opposite mode (history), half of them writing to the very output path; in 3 of 7 cases the output path is one of the input files (decoys added in place). "
     "Non-trivial: >=1 protein with >=2 enzymatic peptides of interior length >=2. Distinct = distinct canonical JSON."
 )
 ASSUMPTIONS = [
@@ -62,6 +62,8 @@ def _case(draw, tier):
         "dup": draw(st.sampled_from([0, 0, 0, 1, 2])),
         # soft-masked databases: stretches of lower-case residues (they are residues like any other: reproduced as they are)
         "softmask": draw(st.sampled_from([False, False, True])),
+        # decoys added in place: the output path is one of the input files (everything is read before anything is written)
+        "inplace": draw(st.sampled_from([None, None, None, None, 0, 1, 2])),
     }
 
 
@@ -132,14 +134,15 @@ def check(case):
             p = tmp / f"db{fi}.fasta"
             p.write_text(text)
             paths.append(str(p))
-        out = tmp / "out.fasta"
+        inplace = case.get("inplace")
+        out = tmp / "out.fasta" if inplace is None else tmp / f"db{inplace % len(paths)}.fasta"
         # history: an earlier call in the same process with the opposite mode must not influence this one
         pre = tmp / "db0.fasta"  # same path as the first input file: it is overwritten with the real content below
         real0 = pre.read_text()
         pre.write_text(">pre1\nMAAAGGGPPPKAGPMAGPMRGGAPMAPG\n>pre2\nAGPMAGK\n")
         np.random.seed(case["np_seed"] ^ 0x5A5A)
         # ... and it wrote to the same output path (a regenerated decoy file replaces the earlier one)
-        guarded(mf.make_decoys, str(pre), str(out if case["np_seed"] % 2 == 0 else tmp / "pre_out.fasta"), enzyme=case["enzyme"],
+        guarded(mf.make_decoys, str(pre), str(out if (case["np_seed"] % 2 == 0 and inplace is None) else tmp / "pre_out.fasta"), enzyme=case["enzyme"],
                 reverse=not case["reverse"], concatenate=not case["concatenate"], sig="make_decoys")
         pre.write_text(real0)
         np.random.seed(case["np_seed"])
@@ -193,7 +196,9 @@ def check(case):
         classes.append("multi-file")
     if any(s == "" for _, s in targets):
         classes.append("empty-sequence")
-    if case["np_seed"] % 2 == 0:
+    if inplace is not None:
+        classes.append("output-path-is-an-input-file")
+    elif case["np_seed"] % 2 == 0:
         classes.append("output-path-held-an-earlier-result")
     if ndup:
         classes.append("repeated-accession" if case.get("dup") == 1 else "input-entry-with-decoy-prefix")
